@@ -112,6 +112,9 @@ def run_match(ctx):
     # pattern sets and the empty-pattern refusal
     sets = [(["a*", "b?"], "bx"), (["a*", ""], "a"), ([""], ""), ([], "a"), (["?", "??"], "ab"), (["x", "y", "*z"], "abz"),
             (["x", "y", "*z"], "abc")]
+    # an empty pattern is refused wherever it stands in the set, whatever stands before it (a pattern that already matches everything included)
+    for sp in ["*", "**", "?", "a", "*a", "a*", "*?*"]:
+        sets += [([sp, ""], "a"), (["", sp], "a"), ([sp, "b", ""], "ab"), (["b", sp, ""], ""), ([sp, sp, ""], "zz"), ([sp, "", sp], "a")]
     for _ in range(20 if ctx.quick else 300):
         ps = ["".join(rng.choice("ab*?") for _ in range(rng.range(0, 4))) for _ in range(rng.range(0, 4))]
         sets.append((ps, "".join(rng.choice("ab") for _ in range(rng.range(0, 5)))))
